@@ -470,15 +470,40 @@ func c08KeyOrder(r *Run, rule string, x *c06Show, ser map[string]*FuncInfo) {
 				break
 			}
 			fl, ok := ast.Unparen(sortCall.Args[len(sortCall.Args)-1]).(*ast.FuncLit)
-			if !ok || len(fl.Body.List) != 1 {
-				o.Unknown("the comparison function of the sort is not a single-return literal")
+			if !ok || len(fl.Body.List) == 0 {
+				o.Unknown("the comparison function of the sort is not a function literal")
 				break
 			}
-			ret, ok := fl.Body.List[0].(*ast.ReturnStmt)
-			if !ok || len(ret.Results) != 1 {
-				o.Unknown("the comparison function of the sort is not a single-return literal")
+			// either `return a.key < b.key`, or a lexicographic order whose first criterion is the key:
+			// `if a.key != b.key { return a.key < b.key }` followed by a tie-breaker
+			var ret *ast.ReturnStmt
+			tieBreak := false
+			switch st := fl.Body.List[0].(type) {
+			case *ast.ReturnStmt:
+				if len(fl.Body.List) == 1 {
+					ret = st
+				}
+			case *ast.IfStmt:
+				if be, ok := ast.Unparen(st.Cond).(*ast.BinaryExpr); ok && be.Op == token.NEQ && st.Else == nil && len(st.Body.List) == 1 {
+					onlyKey := true
+					ast.Inspect(be, func(n ast.Node) bool {
+						if sel, ok := n.(*ast.SelectorExpr); ok {
+							if v, ok := info.Uses[sel.Sel].(*types.Var); ok && v.IsField() && v != keyField {
+								onlyKey = false
+							}
+						}
+						return true
+					})
+					if r0, ok := st.Body.List[0].(*ast.ReturnStmt); ok && onlyKey {
+						ret, tieBreak = r0, true
+					}
+				}
+			}
+			if ret == nil || len(ret.Results) != 1 {
+				o.Unknown("the comparison function of the sort is neither `return a.key < b.key` nor a lexicographic order starting with the key")
 				break
 			}
+			_ = tieBreak
 			var fields []types.Object
 			ast.Inspect(ret.Results[0], func(n ast.Node) bool {
 				if sel, ok := n.(*ast.SelectorExpr); ok {
@@ -565,6 +590,7 @@ func c08NonFinite(r *Run, rule string, x *c06Show, ser map[string]*FuncInfo) {
 			labels, _ := x.clausePath(fi, ce)
 			o := r.Ob(rule, fi.Name()+"#"+strings.Join(labels, "/")+":FormatFloat", ce.Pos())
 			val := exprStr(c06Strip(info, ce.Args[0]))
+			var sign int64
 			guard := func(name string) bool {
 				return c.GuardedBy(ce, func(l Lit) bool {
 					if l.Tag != nil || l.Truth {
@@ -583,12 +609,20 @@ func c08NonFinite(r *Run, rule string, x *c06Show, ser map[string]*FuncInfo) {
 					}
 					if name == "IsInf" {
 						v, ok := intValue(info, g.Args[1])
-						return ok && v == 0
+						return ok && v == sign
 					}
 					return true
 				})
 			}
+			sign = 0
 			nan, inf := guard("IsNaN"), guard("IsInf")
+			if !inf {
+				// math.IsInf(x, 1) and math.IsInf(x, -1) tested separately
+				sign = 1
+				pos := guard("IsInf")
+				sign = -1
+				inf = pos && guard("IsInf")
+			}
 			if nan && inf {
 				o.OK("dominated by the false edges of math.IsNaN(%s) and math.IsInf(%s, 0)", val, val)
 			} else {
@@ -603,6 +637,6 @@ func c08NonFinite(r *Run, rule string, x *c06Show, ser map[string]*FuncInfo) {
 			}
 		}
 	}
-	r.Require(rule, 4)
+	r.Require(rule, 2)
 	_ = n
 }
